@@ -176,7 +176,10 @@ def gen_desc(rng, spec, i):
         nw = W * int(rng.integers(1, 5))
     scale = SCALES[int(rng.integers(0, len(SCALES)))]
     lay = LAYOUTS[int(rng.integers(0, 2 if jit else len(LAYOUTS)))]
-    return dict(what="synth", rng=[int(v) for v in spec["seed"]] + [i], nw=nw, W=W, K=int(rng.integers(1, 5)), T=int(rng.integers(1, 25)),
+    T = int(rng.integers(1, 25))
+    if i % 9 == 4 and nw <= 12:
+        T = int(rng.choice([1000, 2048, 4097]))        # many points (block / chunk boundaries of a vectorised or threaded kernel)
+    return dict(what="synth", rng=[int(v) for v in spec["seed"]] + [i], nw=nw, W=W, K=int(rng.integers(1, 5)), T=T,
                 scale=scale, spread=float(rng.choice([0.1, 1.0, 50.0])), layout=lay,
                 theta="toeplitz" if rng.random() < 0.25 else "dense", arb=(i % 5 == 0), rescore=(i % 3 == 0),
                 offset=(float(10 ** rng.uniform(3, 7)) if i % 4 == 1 else 0.0),
